@@ -104,7 +104,7 @@ Expect(r) ==
 
 -----------------------------------------------------------------------------
 (* Request classes of the bounded model.                                   *)
-CONSTANTS TopicLens, TopicClasses, PayloadSizes, FilterCounts, Thorough, BigSizes
+CONSTANTS TopicLens, TopicClasses, PayloadSizes, FilterCounts, Thorough, BigSizes, ManyCounts
 
 Str(c, n) == [cls |-> c, len |-> n]
 Blank == [op |-> "none", topic |-> Str("ascii", 1), payload |-> 0, filters |-> <<>>,
@@ -145,7 +145,10 @@ FixedRequests == {[Blank EXCEPT !.op = op] : op \in {"Ping", "Disconnect", "AckQ
 \* the 256 MiB limit, for a few operations only (each valid case moves 256 MiB)
 BigRequests == {[Blank EXCEPT !.op = op, !.topic = Str("ascii", 1), !.payload = p] :
                   op \in {"Publish", "PublishAtLeastOnce", "PublishExactlyOnceRetained"}, p \in BigSizes}
-Requests == PublishRequests \cup SubRequests \cup ConnWanted \cup FixedRequests \cup BigRequests
+\* many filters, each of them valid, that together exceed the packet limit (4096 x 65535 bytes and more)
+ManyFilterRequests == {[Blank EXCEPT !.op = op, !.filters = [i \in 1..n |-> Str("ascii", 65535)]] :
+                         op \in SubscribeOps \cup {"Unsubscribe"}, n \in ManyCounts}
+Requests == PublishRequests \cup SubRequests \cup ConnWanted \cup FixedRequests \cup BigRequests \cup ManyFilterRequests
 
 VARIABLES req, phase, wire
 vars == <<req, phase, wire>>
